@@ -249,6 +249,15 @@ def run_c19(prog, job):
     run_builder('single', mk(fields, url=NONE, connection=some(ci), pool=PC), ('connection only', [ci]))
     run_builder('single', mk(fields, url=NONE, connection=NONE, pool=PC), ('neither: default local server', [W.default_info(6379)]))
     run_builder('single', mk(fields, url=some(url), connection=some(ci), pool=PC), ('both',))
+    # every shape of the connection description (payloads symbolic): naming both is an error whatever the connection looks like
+    for variant in ('Tcp', 'TcpTls', 'Unix'):
+        for user in (False, True):
+            for pw in (False, True):
+                for proto in ('RESP2', 'RESP3'):
+                    if (variant, user, pw, proto) == ('TcpTls', True, True, 'RESP3'): continue
+                    ci2 = W.conn_info(variant, user, pw, proto)
+                    run_builder('single', mk(fields, url=some(url), connection=some(ci2), pool=PC), ('both',))
+                    run_builder('single', mk(fields, url=NONE, connection=some(ci2), pool=PC), ('connection only', [ci2]))
     # cluster
     cf = W.structs[('redis/src/cluster/config.rs', 'Config')]
     for n in (0, 1, 2):
